@@ -267,13 +267,49 @@ NaNSpecsQuick == { PowN1, Bin("Power", N1, x), CmpN(x, Str("<"), N1), Ch("Sum", 
                    Bin("URoot", x, N1), Bin("UPlain", x, N1), U3("ULegChild", x, y, N1),
                    U3("ULegChild", x, N1, y), Bin("ULeg", x, N1) }
 
+(***************************************************************************)
+(* Round 4: user dataclass nodes with fields that are not positional       *)
+(* constructor parameters (C01_Values!NonPositional): keyword-only with a  *)
+(* default between two positional fields (UKw), keyword-only without a     *)
+(* default below a built-in class whose own fields have defaults (UKwCse), *)
+(* field(init=False) filled in by __post_init__ (UInitF).  Per class: a    *)
+(* base instance, ==-but-other-type / different / colliding values in THAT *)
+(* field only, the field at its default, one variant per other field.      *)
+(***************************************************************************)
+Kw(u, t, v) == Node("UKw", << u, t, v >>)
+KwCse(c, p, s, tg) == Node("UKwCse", << c, p, s, tg >>)
+InitF(u, lab, v) == Node("UInitF", << u, lab, v >>)
+Zero == KI(0)
+FamKw == <<
+    Kw(One, Two, Three), Kw(One, KF(2, 1), Three), Kw(One, KI(4), Three), Kw(One, Zero, Three),
+    Kw(One, M1, Three), Kw(One, M2, Three), Kw(x, Str("a"), y), Kw(x, Str("b"), y),
+    Kw(One, Two, Zero), Kw(Two, Two, Three) >>
+FamKwCse == <<
+    KwCse(x, Str("p"), EvalScope, One), KwCse(x, Str("p"), EvalScope, OneF), KwCse(x, Str("p"), EvalScope, Two),
+    KwCse(x, Str("p"), EvalScope, M1), KwCse(x, Str("p"), EvalScope, M2),
+    KwCse(x, Str("p"), NoneV, One), KwCse(x, NoneV, EvalScope, One), KwCse(y, Str("p"), EvalScope, One),
+    KwCse(x, Str("p"), EvalScope, Str("a")), KwCse(x, Str("p"), EvalScope, Str("b")),
+    CseN(x, Str("p"), EvalScope) >>
+FamInitF == <<
+    InitF(One, Two, Three), InitF(One, KF(2, 1), Three), InitF(One, KI(4), Three), InitF(One, Zero, Three),
+    InitF(One, M1, Three), InitF(One, M2, Three), InitF(Two, Two, Three), InitF(One, Two, Zero) >>
+\* single objects for the self sweep of the quick tier (copies of them, == / hash / dict
+\* look-up between original and copy)
+KwSpecsQuick == { Kw(One, Two, Three), Kw(x, Str("a"), y), Kw(One, Zero, Three),
+                  KwCse(x, Str("p"), EvalScope, One), KwCse(x, Str("p"), NoneV, Str("a")),
+                  InitF(One, Two, Three), InitF(One, Zero, Three) }
+\* for the pure model check and the negative control
+KwSmallPairs == { << Kw(One, Two, Three), Kw(One, KI(4), Three) >>,
+                  << KwCse(x, Str("p"), EvalScope, M1), KwCse(x, Str("p"), EvalScope, M2) >>,
+                  << InitF(One, Two, Three), InitF(One, KF(2, 1), Three) >> }
+
 \* constructor arguments the class refuses
 FamCtorErr == << CmpN(x, Str("<<"), y), CmpN(x, Str("<"), y) >>
 
 Families == << FamNames, FamNoField, FamTagVar, FamChildrenOnly, FamSum, FamQuot, FamPowShift,
                FamUnary, FamCmp, FamIf, FamCall, FamCallKw, FamSubLook, FamCse, FamSubstDeriv,
                FamUser2, FamUser3, FamNested, FamCtorErr, FamHier, FamHierU, FamHierD,
-               FamNaNF, FamNaNU >>
+               FamNaNF, FamNaNU, FamKw, FamKwCse, FamInitF >>
 
 AllSpecs == UNION { { Families[i][k] : k \in 1..Len(Families[i]) } : i \in 1..Len(Families) }
 
@@ -304,6 +340,10 @@ RepPairs == {
     << U3("ULegChild", One, Two, Three), U3("UChild", One, Two, Three) >>,
     << IfN(x, M1, z), IfN(x, M2, z) >>,
     << Bin("Power", x, Two), Bin("Power", x, KF(2, 1)) >>,
+    << Kw(One, Two, Three), Kw(One, KI(4), Three) >>,
+    << KwCse(x, Str("p"), EvalScope, One), KwCse(x, Str("p"), EvalScope, Two) >>,
+    << KwCse(x, Str("p"), EvalScope, One), KwCse(x, Str("p"), NoneV, OneF) >>,
+    << InitF(One, Two, Three), InitF(One, KI(4), Three) >>,
     << PowN1, PowN1 >>,
     << Ch("Sum", << x, N1 >>), Ch("Sum", << x, N1 >>) >>,
     << Bin("URoot", x, N1), Bin("URoot", x, N2) >>,
@@ -324,6 +364,8 @@ RepPairsQuick == {
     << U3("UChild", One, Two, M1), U3("UChild", One, Two, M2) >>,
     << U3("ULegChild", One, Two, Three), U3("ULegChild", One, Two, KF(3, 1)) >>,
     << U3("ULegChild", One, Two, M1), U3("ULegChild", One, Two, M2) >>,
+    << KwCse(x, Str("p"), EvalScope, One), KwCse(x, Str("p"), EvalScope, Two) >>,
+    << InitF(One, Two, Three), InitF(One, KI(4), Three) >>,
     << PowN1, Ch("Sum", << x, N1 >>) >> }
 RepTriplesQuick == {
     << Ch("Sum", << x, One >>), Ch("Sum", << x, OneF >>), Ch("Sum", << x, OneB >>) >>,
